@@ -181,7 +181,8 @@ fn build(ws: &Workspace, chunk: usize, workers: usize, sched: &str, want: &Optio
     let mut order = wsutil::enumeration_order(&pm, ws);
     if let Some(w) = want {
         let mut tries = 0;
-        while &order != w && tries < 20000 {
+        // (a wanted order over another number of files than were indexed can never show up)
+        while &order != w && w.len() == order.len() && tries < 20000 {
             pm = wsutil::new_manager(ws, HLogger::silent());
             pm.index_files();
             order = wsutil::enumeration_order(&pm, ws);
